@@ -159,7 +159,7 @@ pub fn mem_prop(prop: &str) -> &'static str {
 /// Ways of consuming an iterator other than a plain `next()` loop: std adaptor and consumer
 /// methods that an iterator type may override (nth, last, count, fold, ...) or that are built on
 /// such overrides (skip -> nth, step_by -> nth, for_each -> fold, ...).
-pub const STYLES: [&str; 15] = ["next", "nth", "skip", "step_by(2)", "last", "fold", "count", "for_each", "take", "by_ref.nth+rest", "step_by(3)", "find", "max_by_key", "reduce", "skip_while+take_while"];
+pub const STYLES: [&str; 19] = ["next", "nth", "skip", "step_by(2)", "last", "fold", "count", "for_each", "take", "by_ref.nth+rest", "step_by(3)", "find", "max_by_key", "reduce", "skip_while+take_while", "by_ref.any+rest", "by_ref.all+rest", "by_ref.position+rest", "by_ref.find_map+rest"];
 
 /// Consume `it` in the given style.  Returns the items it yielded, the positions (in the
 /// iterator's own `next()` order) those items must be, and the value of `count()` if that was
@@ -245,6 +245,45 @@ pub fn drive<I: Iterator>(mut it: I, style: usize, j: usize, len0: usize) -> (Ve
                 })
                 .collect();
             (v, all.into_iter().skip(j).take(2).collect(), None)
+        }
+        15..=18 => {
+            // a short-circuiting consumer stops right AFTER the j-th item; everything behind it is still to come
+            let mut c = 0usize;
+            match style {
+                15 => {
+                    let _ = it.by_ref().any(|_| {
+                        c += 1;
+                        c - 1 == j
+                    });
+                }
+                16 => {
+                    let _ = it.by_ref().all(|_| {
+                        c += 1;
+                        c - 1 != j
+                    });
+                }
+                17 => {
+                    let _ = it.by_ref().position(|_| {
+                        c += 1;
+                        c - 1 == j
+                    });
+                }
+                _ => {
+                    let _ = it.by_ref().find_map(|_| {
+                        c += 1;
+                        if c - 1 == j {
+                            Some(())
+                        } else {
+                            None
+                        }
+                    });
+                }
+            }
+            let mut v = Vec::new();
+            for x in it {
+                v.push(x);
+            }
+            (v, ((j + 1).min(len0)..len0).collect(), None)
         }
         _ => {
             let mut v = Vec::new();
